@@ -237,8 +237,8 @@ def handle (toks : List String) : Option String :=
     match parseValue? txt with
     | none => "bad-op"
     | some v =>
-      let d := metaOf v
-      s!"ok {toHex (encodeMeta d)} {toHex (encode d v)}"
+      let r := encSt [] v   -- the literal one-pass mirror (= (metaOf v, encode (metaOf v) v), `encode_one_pass`)
+      s!"ok {toHex (encodeMeta r.1)} {toHex r.2}"
   | ["variant.dec", m, v] => some <|
     match parseHex? m, parseHex? v with
     | some mb, some vb =>
